@@ -105,7 +105,7 @@ def classify_consumers(F, ev, body, call_block, local, cons, roles, depth):
             return False, cid, "Result passed to unmodelled callee %s (undetermined)" % cid
         if k == "discr" and body.blocks[c["block"]]["term"]["k"] != "switch":
             continue  # drop-elaboration re-read of the discriminant, not a test
-        if k in ("discr", "switch") and is_cleanup_region(body, c["block"]):
+        if k in ("discr", "switch") and is_cleanup_region(body, c["block"], c.get("stmt")):
             continue  # drop ladder at the end of the function
         if k == "discr" and feasible_variants(body, c["block"]) is not None:
             continue  # re-test (drop elaboration) on an arm of an earlier test of the same value: covered by that test
@@ -128,6 +128,29 @@ def classify_consumers(F, ev, body, call_block, local, cons, roles, depth):
                 hows.append("tupled")
                 continue
             return False, "agg", "Result moved into an aggregate (undetermined)"
+        if k == "store" and roles is not None and "stmt" in c:
+            # `self.cache = r.ok().zip(..).map(..)`: the derived Option is stored as the cache itself. Accepted when the
+            # stored value is present only if this model call succeeded (its success is among the presence conditions)
+            fs = [e for e in c["place"]["proj"] if e["k"] == "field"]
+            whole = len(fs) == 1 and fs[0].get("owner") == ADT_PROBLEM and fs[0]["name"] == roles["cache"] and \
+                not any(e["k"] == "downcast" for e in c["place"]["proj"])
+            if whole:
+                from rules_panic import nosite
+                env = Env(body)
+                st = body.blocks[c["block"]]["stmts"][c["stmt"]]
+                try:
+                    v = ev.rvalue(env, st["rv"], (c["block"], c["stmt"]))
+                    callv = nosite(ev.call_val(env, call_block))
+                except RecursionError:
+                    v, callv = None, None
+                alts = v[1] if v is not None and v[0] == "phi" else (v,)
+                good = v is not None and all(
+                    a is not None and (a[0] == "none" or is_absent_value(a) or
+                                       (a[0] == "opt" and any(x[0] == "is_ok" and nosite(x[1]) == callv for x in a[2]))) for a in alts)
+                if good:
+                    hows.append("stored-as-cache(present⇒success)")
+                    continue
+                return False, "store", "the derived value `%s` is stored as the cache, but its presence does not imply that the model call succeeded" % short(v)[:120]
         return False, k, "unmodelled use of the Result (%s)" % k
     if all(h == "payload" for h in hows):
         return False, "payload", "payload read without test"
